@@ -673,6 +673,77 @@ def r06f(ctx):
         raise AnalysisError(f"R06f: only {m} type-dispatching reader(s) of office:value found (expected ElementTyped._get_typed_value and Cell.value)")
 
 
+def r06i(ctx):
+    """A boolean is not taken for a number.
+
+    In Python `True` is an `int`: `isinstance(True, (int, float, Decimal))` holds.  The typed-value writers therefore test for bool first and
+    reach the numeric arm only once bool is excluded.  A helper on the same path that asks "is it a number?" on its own — to keep the type of
+    the field, to pick a format — sends booleans down the numeric road: `office:value-type="float"` with `office:value="true"`, which no
+    reader accepts.  Rule: in the modules that write typed values (cell, element_typed, variable, meta), every `isinstance(v, T)` with int in
+    T and bool not in T is evaluated only where `isinstance(v, bool)` has already been answered no (an earlier arm of the same chain or an
+    earlier early exit).
+    """
+    repo = ctx.repo
+    ctx.rule("R06i", "on the typed-value path a test for int is reached only after bool has been excluded", floor=3)
+    n = 0
+    for f in repo.all_funcs():
+        if not f.file.endswith(("/cell.py", "/element_typed.py", "/variable.py", "/meta.py")):
+            continue
+        for t in walk_no_nested(f.node):
+            if not (isinstance(t, ast.Call) and call_name(t) == "isinstance" and len(t.args) == 2 and isinstance(t.args[0], ast.Name)):
+                continue
+            names = {x.id for x in ast.walk(t.args[1]) if isinstance(x, ast.Name)}
+            if "int" not in names or "bool" in names:
+                continue
+            v = t.args[0].id
+            # a pure validation (`if not isinstance(v, int): raise …`) chooses no encoding
+            from ..core import parent as _parent0
+            from ..paths import if_arms
+            holder = _parent0(t)
+            while isinstance(holder, ast.UnaryOp):
+                holder = _parent0(holder)
+            if isinstance(holder, ast.If):
+                core, when_true, when_false = if_arms(holder)
+                if core is t and not when_true and when_false and isinstance(when_false[-1], ast.Raise):
+                    continue
+            n += 1
+            # the guards in force where the test itself is evaluated
+            guards = structural_guards(t, stop=f.node)
+            # an `elif` arm: the test is the `test` of an If that sits in the orelse of the arms before it
+            excluded = any((not pol) and isinstance(g, ast.Call) and call_name(g) == "isinstance" and isinstance(g.args[0], ast.Name) and g.args[0].id == v
+                           and "bool" in {x.id for x in ast.walk(g.args[1]) if isinstance(x, ast.Name)} for g, pol in guards)
+            if not excluded:
+                cur = t
+                from ..core import parent as _parent
+                while cur is not None and cur is not f.node:
+                    par = _parent(cur)
+                    if isinstance(par, ast.If) and cur is par.test:
+                        # walk up the elif chain
+                        up = par
+                        while True:
+                            pp = _parent(up)
+                            if isinstance(pp, ast.If) and up in pp.orelse:
+                                g = pp.test
+                                if isinstance(g, ast.Call) and call_name(g) == "isinstance" and isinstance(g.args[0], ast.Name) and g.args[0].id == v \
+                                        and "bool" in {x.id for x in ast.walk(g.args[1]) if isinstance(x, ast.Name)}:
+                                    excluded = True
+                                up = pp
+                            else:
+                                break
+                        guards2 = structural_guards(par, stop=f.node)
+                        excluded = excluded or any((not pol) and isinstance(g, ast.Call) and call_name(g) == "isinstance" and isinstance(g.args[0], ast.Name) and g.args[0].id == v
+                                                   and "bool" in {x.id for x in ast.walk(g.args[1]) if isinstance(x, ast.Name)} for g, pol in guards2)
+                        break
+                    cur = par
+            ctx.instance("R06i", f"{f.file}:{f.ident}", f"{norm(t, 50)}: bool excluded before", ok=excluded, nontrivial=True, line=t.lineno)
+            if not excluded:
+                ctx.report("R06i", f, t, norm(t, 60),
+                           f"{f.ident} asks `{norm(t, 50)}` without having excluded bool: True and False are ints, so a boolean takes the numeric road here — on the typed-value "
+                           f"path that stores `office:value-type` float/percentage/currency next to `office:value=\"true\"`, which does not read back")
+    if n < 3:
+        raise AnalysisError(f"R06i: only {n} int test(s) found on the typed-value path")
+
+
 def run(ctx):
     r06a(ctx)
     r06b(ctx)
@@ -682,6 +753,7 @@ def run(ctx):
     r06f(ctx)
     r06g(ctx)
     r06h(ctx)
+    r06i(ctx)
     # a typed string lives in an attribute value: serialising the element must not take anything out of it (rule shared with C12)
     from ..registry import build_registry
     from .c12 import r12o
@@ -697,6 +769,12 @@ from ..selftest import Seed, unparse_seed  # noqa: E402
 
 _ET = "src/odfdo/element_typed.py"
 SEEDS = [
+    Seed("VarSet.set_value keeps the numeric type of the field for any int", "fault", "src/odfdo/variable.py",
+         "        display = self.get_attribute(\"text:display\")\n        self.clear()\n        text = self.set_value_and_type(value=value)",
+         "        display = self.get_attribute(\"text:display\")\n        kept = self.get_attribute_string(\"office:value-type\") if isinstance(value, (int, float)) else None\n        self.clear()\n        text = self.set_value_and_type(value=value, value_type=kept)", "R06i"),
+    Seed("VarSet.set_value keeps the numeric type of the field for numbers that are not booleans", "neutral", "src/odfdo/variable.py",
+         "        display = self.get_attribute(\"text:display\")\n        self.clear()\n        text = self.set_value_and_type(value=value)",
+         "        display = self.get_attribute(\"text:display\")\n        kept = None\n        if isinstance(value, bool):\n            pass\n        elif isinstance(value, (int, float)):\n            kept = None\n        self.clear()\n        text = self.set_value_and_type(value=value)"),
     Seed("Cell.datetime setter writes the short form at midnight", "fault", "src/odfdo/cell.py", "        dvalue = DateTime.encode(value)\n",
          "        if value.hour or value.minute or value.second or value.microsecond:\n            dvalue = DateTime.encode(value)\n        else:\n            dvalue = Date.encode(value)\n", "R06h"),
     Seed("metadata reader treats empty text as no value", "fault", "src/odfdo/meta.py",
